@@ -16,7 +16,7 @@ def check(ctx):
     ctx.guard(r064_null, ctx)
     ctx.guard(r065_losses, ctx)
     ctx.guard(r066_loss_moment_wiring, ctx)
-
+    ctx.guard(_shared_c06, ctx)
 
 # ----------------------------------------------------------------------------- R06.1
 
@@ -496,3 +496,9 @@ def r066_loss_moment_wiring(ctx):
     allc = A.ev.eval_src("_ALL", {}, module=M_ER)
     ok = bool(st) and all(e.data["value"] is mk("list", (allc,)) for e in st)
     ctx.ob("R06.6", re_.func, st[0].node if st else None, ok, "ErrorRate's constraint index is ['all']", construct="ErrorRate index")
+
+
+def _shared_c06(ctx):
+    from .c12 import LOAD_DATA, label_sinks
+    ctx.rule("R06.7", "no caller-labelled pandas value reaches a label-aligning operation in any moment's load_data (shared with C12 R12.1)")
+    label_sinks(ctx, "R06.7", [(f"{mod}:{c}.load_data", f"{mod}:{c}") for mod, c in LOAD_DATA])
